@@ -53,3 +53,22 @@ Theorem C16_greedy_resync :
   greedy_lit bs beq fuel full (pre ++ concat bl ++ tail) <= Z.of_nat (length pre) + Z.of_nat (length tail).
 Proof. intros beq bs Hp Hbeq. exact (greedy_resync bs Hp beq Hbeq). Qed.
 Print Assumptions C16_greedy_resync.
+
+(** The cost of a k-byte edit: the source is the basis with a region replaced by
+    Y (|Y| = k inserted/replacing bytes; k = 0 for a deletion), written around
+    the basis's block structure; the textbook scan then carries at most
+    k + 2(bs-1) + (trailing partial block) literal bytes, i.e. at most k plus two
+    blocks for a file made of whole blocks.  By C16_literals_eq_greedy the same
+    bound holds for the computed delta. *)
+Theorem C16_edit_cost :
+  forall (beq : list Z -> list Z -> bool) (bs : nat),
+  (0 < bs)%nat -> (forall a b, beq a b = true <-> a = b) ->
+  forall (full : list (list Z)) (fuel : nat) (blA blB : list (list Z)) (Apost Bpre tail Y : list Z),
+  (forall b, In b blA -> In b full /\ length b = bs) ->
+  (forall b, In b blB -> In b full /\ length b = bs) ->
+  (length Apost < bs)%nat -> (length Bpre < bs)%nat -> (length tail < bs)%nat ->
+  (length (concat blA ++ (Apost ++ Y ++ Bpre) ++ concat blB ++ tail) < fuel)%nat ->
+  greedy_lit bs beq fuel full (concat blA ++ (Apost ++ Y ++ Bpre) ++ concat blB ++ tail)
+  <= Z.of_nat (length Y) + 2 * (Z.of_nat bs - 1) + Z.of_nat (length tail).
+Proof. intros beq bs Hp Hbeq. exact (edit_cost bs Hp beq Hbeq). Qed.
+Print Assumptions C16_edit_cost.
